@@ -426,4 +426,106 @@ theorem normalizePath_dotFree (input : Bytes) : DotFree (normalizePath input) :=
   apply dotFree_reverse
   exact normLoop_dotFree _ input [] none dotFree_nil (Or.inr ⟨rfl, Or.inl rfl⟩)
 
+/-! ### a path without dot segments is a fixed point (idempotence) -/
+
+theorem segOf_mem_segs (p : Bytes) : ∃ tl, segs p = segOf p :: tl := by
+  induction p with
+  | nil => exact ⟨[], rfl⟩
+  | cons c r ih =>
+    by_cases h : c = SL
+    · subst h; exact ⟨segs r, by rw [segs_cons_sl, segOf_cons_sl]⟩
+    · have hc : (c == SL) = false := by simpa using h
+      obtain ⟨tl, e⟩ := ih
+      exact ⟨tl, by rw [segs_cons_ne _ _ hc, e, segOf_cons_ne _ _ h]⟩
+
+theorem dotFree_tail_sl (r : Bytes) (h : DotFree (SL :: r)) : DotFree r := by
+  intro s hs; apply h; rw [segs_cons_sl]; simp [hs]
+
+theorem dotFree_dropWhile (p : Bytes) (h : DotFree p) : DotFree (p.dropWhile (· != SL)) := by
+  have e := List.takeWhile_append_dropWhile (p := (· != SL)) (l := p)
+  cases hd : p.dropWhile (· != SL) with
+  | nil => exact dotFree_nil
+  | cons x t =>
+    have hx : x = SL := by
+      have := dropWhile_head' _ _ _ _ hd
+      simpa using this
+    subst hx
+    rw [hd] at e
+    intro s hs
+    rw [segs_cons_sl] at hs
+    cases hs with
+    | head => rfl
+    | tail _ hs' =>
+      apply h
+      rw [← e, segs_append_sl _ _ (takeWhile_noslash p)]
+      exact List.mem_cons_of_mem _ hs'
+
+/-- on a path whose unread part has no dot segment, every rule application is rule E (copy one segment) -/
+theorem normRules_E (c : UInt8) (rest out : Bytes)
+    (h1 : c = DOT → isDotSeg (DOT :: segOf rest) = false) (h2 : c = SL → isDotSeg (segOf rest) = false) :
+    normRules c rest out = ((copySegment rest (c :: out)).2, some ((copySegment rest (c :: out)).1, none)) := by
+  unfold normRules
+  simp only [ruleE_form]
+  split
+  · rename_i hc
+    have hcd : c = DOT := by simpa [DOT] using hc
+    have h1 := h1 hcd
+    split
+    · exfalso; revert h1; simp [segOf, List.takeWhile, SL, DOT, isDotSeg]
+    · exfalso; revert h1; simp [segOf, List.takeWhile, SL, DOT, isDotSeg]
+    · exfalso; revert h1; simp [segOf, List.takeWhile, SL, DOT, isDotSeg]
+    · exfalso; revert h1; simp [segOf, List.takeWhile, SL, DOT, isDotSeg]
+    · rfl
+  · split
+    · rename_i hc
+      have hcs : c = SL := by simpa [SL] using hc
+      have h2 := h2 hcs
+      split
+      · exfalso; revert h2; simp [segOf, List.takeWhile, SL, DOT, isDotSeg]
+      · exfalso; revert h2; simp [segOf, List.takeWhile, SL, DOT, isDotSeg]
+      · exfalso; revert h2; simp [segOf, List.takeWhile, SL, DOT, isDotSeg]
+      · exfalso; revert h2; simp [segOf, List.takeWhile, SL, DOT, isDotSeg]
+      · rfl
+    · rfl
+
+theorem normLoop_id (fuel : Nat) (rest out : Bytes) (hf : rest.length < fuel) (hd : DotFree rest) :
+    normLoop fuel rest out none = rest.reverse ++ out := by
+  induction fuel generalizing rest out with
+  | zero => omega
+  | succ k ih =>
+    unfold normLoop
+    cases rest with
+    | nil => simp
+    | cons r rest' =>
+      simp only
+      have hseg : isDotSeg (segOf (r :: rest')) = false := by
+        obtain ⟨tl, e⟩ := segOf_mem_segs (r :: rest'); apply hd; rw [e]; simp
+      have h1 : r = DOT → isDotSeg (DOT :: segOf rest') = false := by
+        intro h; subst h; rw [segOf_cons_ne _ _ (by decide)] at hseg; exact hseg
+      have h2 : r = SL → isDotSeg (segOf rest') = false := by
+        intro h; subst h
+        obtain ⟨tl, e⟩ := segOf_mem_segs rest'
+        apply dotFree_tail_sl _ hd; rw [e]; simp
+      rw [normRules_E r rest' out h1 h2, copySegment_eq]
+      simp only
+      have hdf : DotFree (rest'.dropWhile (· != SL)) := by
+        by_cases hr : r = SL
+        · subst hr; exact dotFree_dropWhile _ (dotFree_tail_sl _ hd)
+        · have := dotFree_dropWhile _ hd
+          have hne : (r != SL) = true := by simpa using hr
+          simpa [List.dropWhile, hne] using this
+      have hl := length_dropWhile_le' (· != SL) rest'
+      rw [ih _ _ (by simp at hf; omega) hdf]
+      have e := List.takeWhile_append_dropWhile (p := (· != SL)) (l := rest')
+      rw [← List.append_assoc, ← List.reverse_append, e]; simp
+
+/-- a path without dot segments is left exactly as it is -/
+theorem normalizePath_of_dotFree (p : Bytes) (h : DotFree p) : normalizePath p = p := by
+  unfold normalizePath
+  rw [normLoop_id _ _ _ (by omega) h]; simp
+
+/-- dot-segment removal is idempotent -/
+theorem normalizePath_idem (p : Bytes) : normalizePath (normalizePath p) = normalizePath p :=
+  normalizePath_of_dotFree _ (normalizePath_dotFree p)
+
 end Htp.Decode
